@@ -51,7 +51,7 @@ Proof.
   assert (L4 : nlookup o0 (objs u4) = Some (with_under nu (set_kind "Alias" e0))) by (apply F4; [exact L3|discriminate]).
   exists (with_methods r (with_under nu (set_kind "Alias" e0))).
   split; [apply update_lookup_same; exact L4|]. split; [reflexivity|]. split.
-  - exists nu. split; [reflexivity|]. exact K2.
+  - exists nu. split; [reflexivity|]. destruct (walk_child_is v2 p Hok _ _ _ _ _ _ C1 E1) as [_ K2']. exact K2'.
   - destruct (walk_methods_names v2 p Hok f _ _ _ _ C3 E4) as [_ Fm]. exact Fm.
 Qed.
 End Alias.
